@@ -2,54 +2,107 @@ package __PKG__
 
 // C14, same-type pairs for the seven PNFT messages.
 
+
+const vInvalidAnywhere = "\xf8\xf9\xfa\xfb\xfc\xfd\xfe\xff"
+
+// vTxt: a text field of at most 16 bytes (the JSON model is structural, so longer strings add
+// nothing; the U+FFFD coercion is modelled for strings of up to 12 bytes)
+func vTxt(site string) string {
+	s := vNondetAtom(site)
+	vAssume(len(s) <= 16)
+	return s
+}
+
+// vClean: none of the strings contains a byte 0xF8..0xFF (bytes that are invalid in any UTF-8
+// context; encoding/json and amino-JSON write each of them as U+FFFD)
+func vClean(ss ...string) bool {
+	ok := true
+	for _, s := range ss {
+		ok = vAll(ok, vNoBytesIn(s, 0, 1<<20, vInvalidAnywhere))
+	}
+	return ok
+}
+
+// vDistinctSignBytes asserts injectivity under two labels, so that the known collision class
+// (text fields with bytes that are not valid UTF-8) is told apart from any other collision.
+func vDistinctSignBytes(b1, b2 []byte, clean bool, label, labelInvalid string) {
+	eq := vBytesEqual(b1, b2)
+	if clean {
+		vCheck(!eq, label)
+	} else {
+		vCheck(!eq, labelInvalid)
+	}
+}
+
 func vHarnessSignBytesCreateDenom() {
-	m1 := &MsgCreateDenomRequest{Id: vNondetAtom("i1"), Name: vNondetAtom("n1"), Symbol: vNondetAtom("s1"), Description: vNondetAtom("d1"), Uri: vNondetAtom("u1"), UriHash: vNondetAtom("h1"), Data: vNondetAtom("x1"), Creator: vNondetAddr("c1")}
-	m2 := &MsgCreateDenomRequest{Id: vNondetAtom("i2"), Name: vNondetAtom("n2"), Symbol: vNondetAtom("s2"), Description: vNondetAtom("d2"), Uri: vNondetAtom("u2"), UriHash: vNondetAtom("h2"), Data: vNondetAtom("x2"), Creator: vNondetAddr("c2")}
+	m1 := &MsgCreateDenomRequest{Id: vTxt("i1"), Name: vTxt("n1"), Symbol: vTxt("s1"), Description: vTxt("d1"), Uri: vTxt("u1"), UriHash: vTxt("h1"), Data: vTxt("x1"), Creator: vNondetAddr("c1")}
+	m2 := &MsgCreateDenomRequest{Id: vTxt("i2"), Name: vTxt("n2"), Symbol: vTxt("s2"), Description: vTxt("d2"), Uri: vTxt("u2"), UriHash: vTxt("h2"), Data: vTxt("x2"), Creator: vNondetAddr("c2")}
 	vAssume(vAny(m1.Id != m2.Id, m1.Name != m2.Name, m1.Symbol != m2.Symbol, m1.Description != m2.Description, m1.Uri != m2.Uri, m1.UriHash != m2.UriHash, m1.Data != m2.Data, m1.Creator != m2.Creator))
 	vCover("two different create-denom messages")
-	vCheck(!vBytesEqual(m1.GetSignBytes(), m2.GetSignBytes()), "C14: different CreateDenom messages have different sign bytes")
+	vAssume(m1.ValidateBasic() == nil)
+	vAssume(m2.ValidateBasic() == nil)
+	vDistinctSignBytes(m1.GetSignBytes(), m2.GetSignBytes(), vClean(m1.Id, m2.Id, m1.Name, m2.Name, m1.Symbol, m2.Symbol, m1.Description, m2.Description, m1.Uri, m2.Uri, m1.UriHash, m2.UriHash, m1.Data, m2.Data),
+		"C14: different CreateDenom messages have different sign bytes", "C14: CreateDenom messages that differ only in bytes that are not valid UTF-8 have different legacy sign bytes")
 }
 
 func vHarnessSignBytesUpdateDenom() {
-	m1 := &MsgUpdateDenomRequest{Id: vNondetAtom("i1"), Name: vNondetAtom("n1"), Symbol: vNondetAtom("s1"), Description: vNondetAtom("d1"), Uri: vNondetAtom("u1"), UriHash: vNondetAtom("h1"), Data: vNondetAtom("x1"), Updater: vNondetAddr("c1")}
-	m2 := &MsgUpdateDenomRequest{Id: vNondetAtom("i2"), Name: vNondetAtom("n2"), Symbol: vNondetAtom("s2"), Description: vNondetAtom("d2"), Uri: vNondetAtom("u2"), UriHash: vNondetAtom("h2"), Data: vNondetAtom("x2"), Updater: vNondetAddr("c2")}
+	m1 := &MsgUpdateDenomRequest{Id: vTxt("i1"), Name: vTxt("n1"), Symbol: vTxt("s1"), Description: vTxt("d1"), Uri: vTxt("u1"), UriHash: vTxt("h1"), Data: vTxt("x1"), Updater: vNondetAddr("c1")}
+	m2 := &MsgUpdateDenomRequest{Id: vTxt("i2"), Name: vTxt("n2"), Symbol: vTxt("s2"), Description: vTxt("d2"), Uri: vTxt("u2"), UriHash: vTxt("h2"), Data: vTxt("x2"), Updater: vNondetAddr("c2")}
 	vAssume(vAny(m1.Id != m2.Id, m1.Name != m2.Name, m1.Symbol != m2.Symbol, m1.Description != m2.Description, m1.Uri != m2.Uri, m1.UriHash != m2.UriHash, m1.Data != m2.Data, m1.Updater != m2.Updater))
 	vCover("two different update-denom messages")
-	vCheck(!vBytesEqual(m1.GetSignBytes(), m2.GetSignBytes()), "C14: different UpdateDenom messages have different sign bytes")
+	vAssume(m1.ValidateBasic() == nil)
+	vAssume(m2.ValidateBasic() == nil)
+	vDistinctSignBytes(m1.GetSignBytes(), m2.GetSignBytes(), vClean(m1.Id, m2.Id, m1.Name, m2.Name, m1.Symbol, m2.Symbol, m1.Description, m2.Description, m1.Uri, m2.Uri, m1.UriHash, m2.UriHash, m1.Data, m2.Data),
+		"C14: different UpdateDenom messages have different sign bytes", "C14: UpdateDenom messages that differ only in bytes that are not valid UTF-8 have different legacy sign bytes")
 }
 
 func vHarnessSignBytesDeleteDenom() {
-	m1 := &MsgDeleteDenomRequest{Id: vNondetAtom("i1"), Remover: vNondetAddr("c1")}
-	m2 := &MsgDeleteDenomRequest{Id: vNondetAtom("i2"), Remover: vNondetAddr("c2")}
+	m1 := &MsgDeleteDenomRequest{Id: vTxt("i1"), Remover: vNondetAddr("c1")}
+	m2 := &MsgDeleteDenomRequest{Id: vTxt("i2"), Remover: vNondetAddr("c2")}
 	vAssume(vAny(m1.Id != m2.Id, m1.Remover != m2.Remover))
-	vCheck(!vBytesEqual(m1.GetSignBytes(), m2.GetSignBytes()), "C14: different DeleteDenom messages have different sign bytes")
+	vAssume(m1.ValidateBasic() == nil)
+	vAssume(m2.ValidateBasic() == nil)
+	vDistinctSignBytes(m1.GetSignBytes(), m2.GetSignBytes(), vClean(m1.Id, m2.Id),
+		"C14: different DeleteDenom messages have different sign bytes", "C14: DeleteDenom messages that differ only in bytes that are not valid UTF-8 have different legacy sign bytes")
 }
 
 func vHarnessSignBytesTransferDenom() {
-	m1 := &MsgTransferDenomRequest{Id: vNondetAtom("i1"), Sender: vNondetAddr("a1"), Receiver: vNondetAddr("b1")}
-	m2 := &MsgTransferDenomRequest{Id: vNondetAtom("i2"), Sender: vNondetAddr("a2"), Receiver: vNondetAddr("b2")}
+	m1 := &MsgTransferDenomRequest{Id: vTxt("i1"), Sender: vNondetAddr("a1"), Receiver: vNondetAddr("b1")}
+	m2 := &MsgTransferDenomRequest{Id: vTxt("i2"), Sender: vNondetAddr("a2"), Receiver: vNondetAddr("b2")}
 	vAssume(vAny(m1.Id != m2.Id, m1.Sender != m2.Sender, m1.Receiver != m2.Receiver))
-	vCheck(!vBytesEqual(m1.GetSignBytes(), m2.GetSignBytes()), "C14: different TransferDenom messages have different sign bytes")
+	vAssume(m1.ValidateBasic() == nil)
+	vAssume(m2.ValidateBasic() == nil)
+	vDistinctSignBytes(m1.GetSignBytes(), m2.GetSignBytes(), vClean(m1.Id, m2.Id),
+		"C14: different TransferDenom messages have different sign bytes", "C14: TransferDenom messages that differ only in bytes that are not valid UTF-8 have different legacy sign bytes")
 }
 
 func vHarnessSignBytesMint() {
-	m1 := &MsgMintPNFTRequest{DenomId: vNondetAtom("e1"), Id: vNondetAtom("i1"), Name: vNondetAtom("n1"), Description: vNondetAtom("d1"), Uri: vNondetAtom("u1"), UriHash: vNondetAtom("h1"), Data: vNondetAtom("x1"), Creator: vNondetAddr("c1")}
-	m2 := &MsgMintPNFTRequest{DenomId: vNondetAtom("e2"), Id: vNondetAtom("i2"), Name: vNondetAtom("n2"), Description: vNondetAtom("d2"), Uri: vNondetAtom("u2"), UriHash: vNondetAtom("h2"), Data: vNondetAtom("x2"), Creator: vNondetAddr("c2")}
+	m1 := &MsgMintPNFTRequest{DenomId: vTxt("e1"), Id: vTxt("i1"), Name: vTxt("n1"), Description: vTxt("d1"), Uri: vTxt("u1"), UriHash: vTxt("h1"), Data: vTxt("x1"), Creator: vNondetAddr("c1")}
+	m2 := &MsgMintPNFTRequest{DenomId: vTxt("e2"), Id: vTxt("i2"), Name: vTxt("n2"), Description: vTxt("d2"), Uri: vTxt("u2"), UriHash: vTxt("h2"), Data: vTxt("x2"), Creator: vNondetAddr("c2")}
 	vAssume(vAny(m1.DenomId != m2.DenomId, m1.Id != m2.Id, m1.Name != m2.Name, m1.Description != m2.Description, m1.Uri != m2.Uri, m1.UriHash != m2.UriHash, m1.Data != m2.Data, m1.Creator != m2.Creator))
 	vCover("two different mint messages")
-	vCheck(!vBytesEqual(m1.GetSignBytes(), m2.GetSignBytes()), "C14: different MintPNFT messages have different sign bytes")
+	vAssume(m1.ValidateBasic() == nil)
+	vAssume(m2.ValidateBasic() == nil)
+	vDistinctSignBytes(m1.GetSignBytes(), m2.GetSignBytes(), vClean(m1.DenomId, m2.DenomId, m1.Id, m2.Id, m1.Name, m2.Name, m1.Description, m2.Description, m1.Uri, m2.Uri, m1.UriHash, m2.UriHash, m1.Data, m2.Data),
+		"C14: different MintPNFT messages have different sign bytes", "C14: MintPNFT messages that differ only in bytes that are not valid UTF-8 have different legacy sign bytes")
 }
 
 func vHarnessSignBytesTransferPNFT() {
-	m1 := &MsgTransferPNFTRequest{DenomId: vNondetAtom("e1"), Id: vNondetAtom("i1"), Sender: vNondetAddr("a1"), Receiver: vNondetAddr("b1")}
-	m2 := &MsgTransferPNFTRequest{DenomId: vNondetAtom("e2"), Id: vNondetAtom("i2"), Sender: vNondetAddr("a2"), Receiver: vNondetAddr("b2")}
+	m1 := &MsgTransferPNFTRequest{DenomId: vTxt("e1"), Id: vTxt("i1"), Sender: vNondetAddr("a1"), Receiver: vNondetAddr("b1")}
+	m2 := &MsgTransferPNFTRequest{DenomId: vTxt("e2"), Id: vTxt("i2"), Sender: vNondetAddr("a2"), Receiver: vNondetAddr("b2")}
 	vAssume(vAny(m1.DenomId != m2.DenomId, m1.Id != m2.Id, m1.Sender != m2.Sender, m1.Receiver != m2.Receiver))
-	vCheck(!vBytesEqual(m1.GetSignBytes(), m2.GetSignBytes()), "C14: different TransferPNFT messages have different sign bytes")
+	vAssume(m1.ValidateBasic() == nil)
+	vAssume(m2.ValidateBasic() == nil)
+	vDistinctSignBytes(m1.GetSignBytes(), m2.GetSignBytes(), vClean(m1.DenomId, m2.DenomId, m1.Id, m2.Id),
+		"C14: different TransferPNFT messages have different sign bytes", "C14: TransferPNFT messages that differ only in bytes that are not valid UTF-8 have different legacy sign bytes")
 }
 
 func vHarnessSignBytesBurn() {
-	m1 := &MsgBurnPNFTRequest{DenomId: vNondetAtom("e1"), Id: vNondetAtom("i1"), Burner: vNondetAddr("a1")}
-	m2 := &MsgBurnPNFTRequest{DenomId: vNondetAtom("e2"), Id: vNondetAtom("i2"), Burner: vNondetAddr("a2")}
+	m1 := &MsgBurnPNFTRequest{DenomId: vTxt("e1"), Id: vTxt("i1"), Burner: vNondetAddr("a1")}
+	m2 := &MsgBurnPNFTRequest{DenomId: vTxt("e2"), Id: vTxt("i2"), Burner: vNondetAddr("a2")}
 	vAssume(vAny(m1.DenomId != m2.DenomId, m1.Id != m2.Id, m1.Burner != m2.Burner))
-	vCheck(!vBytesEqual(m1.GetSignBytes(), m2.GetSignBytes()), "C14: different BurnPNFT messages have different sign bytes")
+	vAssume(m1.ValidateBasic() == nil)
+	vAssume(m2.ValidateBasic() == nil)
+	vDistinctSignBytes(m1.GetSignBytes(), m2.GetSignBytes(), vClean(m1.DenomId, m2.DenomId, m1.Id, m2.Id),
+		"C14: different BurnPNFT messages have different sign bytes", "C14: BurnPNFT messages that differ only in bytes that are not valid UTF-8 have different legacy sign bytes")
 }
